@@ -110,4 +110,26 @@ def handleEngine (toks : List String) : String :=
     | _, _, _ => "decode-error"
   | _ => "decode-error"
 
+def handleRename (toks : List String) : String :=
+  match toks with
+  | c :: rest =>
+    match c.toNat?, decRule rest with
+    | some counter, some (rule, _) =>
+      match renameRule rule ⟨[], counter⟩ with
+      | .ok (r2, st) => "ok " ++ encRule r2 ++ " C " ++ toString st.counter
+      | _ => "panic"
+    | _, _ => "decode-error"
+  | _ => "decode-error"
+
+def handleMkList (proper : Bool) (toks : List String) : String :=
+  match toks with
+  | vb :: n :: rest =>
+    match n.toNat? with
+    | some k =>
+      match decTerm.decTerms k rest with
+      | some (ts, _) => "ok " ++ encTerm (if proper then mkProper ts else mkList (vb == "1") ts)
+      | none => "decode-error"
+    | none => "decode-error"
+  | _ => "decode-error"
+
 end Suiron.Driver
